@@ -2336,6 +2336,9 @@ static int cfg_addlist_internal(cfg_opt_t *opt, unsigned int nvalues, va_list ap
 	unsigned int i;
 
 	for (i = 0; i < nvalues; i++) {
+		if (i > 0 && result != CFG_SUCCESS)
+			break;	/* the previous value could not be stored */
+
 		switch (opt->type) {
 		case CFGT_INT:
 			result = cfg_opt_setnint(opt, va_arg(ap, int), opt->nvalues);
@@ -2367,6 +2370,7 @@ static int cfg_addlist_internal(cfg_opt_t *opt, unsigned int nvalues, va_list ap
 DLLIMPORT int cfg_setlist(cfg_t *cfg, const char *name, unsigned int nvalues, ...)
 {
 	va_list ap;
+	int result;
 	cfg_opt_t *opt = cfg_getopt(cfg, name);
 
 	if (!opt || !is_set(CFGF_LIST, opt->flags)) {
@@ -2376,15 +2380,16 @@ DLLIMPORT int cfg_setlist(cfg_t *cfg, const char *name, unsigned int nvalues, ..
 
 	cfg_free_value(opt);
 	va_start(ap, nvalues);
-	cfg_addlist_internal(opt, nvalues, ap);
+	result = nvalues ? cfg_addlist_internal(opt, nvalues, ap) : CFG_SUCCESS;
 	va_end(ap);
 
-	return CFG_SUCCESS;
+	return result;
 }
 
 DLLIMPORT int cfg_addlist(cfg_t *cfg, const char *name, unsigned int nvalues, ...)
 {
 	va_list ap;
+	int result;
 	cfg_opt_t *opt = cfg_getopt(cfg, name);
 
 	if (!opt || !is_set(CFGF_LIST, opt->flags)) {
@@ -2396,10 +2401,10 @@ DLLIMPORT int cfg_addlist(cfg_t *cfg, const char *name, unsigned int nvalues, ..
 	opt->flags &= ~CFGF_RESET;
 
 	va_start(ap, nvalues);
-	cfg_addlist_internal(opt, nvalues, ap);
+	result = nvalues ? cfg_addlist_internal(opt, nvalues, ap) : CFG_SUCCESS;
 	va_end(ap);
 
-	return CFG_SUCCESS;
+	return result;
 }
 
 DLLIMPORT cfg_t *cfg_addtsec(cfg_t *cfg, const char *name, const char *title)
